@@ -31,7 +31,8 @@ def run(ck: Check):
     quick = ck.tier == "quick"
     runlib.float_selftest(ck, 3000 if quick else 50000)
     parselib.precedence_oracle(ck)
-    streams = runlib.run_streams(ck, ck.tier, kinds=("corpus", "main"), n_main=2000 if quick else 80000)
+    streams = runlib.run_streams(ck, ck.tier, kinds=("corpus", "main"), n_main=2000 if quick else 80000,
+                                 corpus_dirs=("wide",))
     for bias in ("strings", "control", "numbers"):
         ck.seed += 11
         got = runlib.run_streams(ck, ck.tier, kinds=("main",), bias=bias, n_main=500 if quick else 20000)
